@@ -206,8 +206,7 @@ func (m *MatchRDP) Match(cx *layer4.Connection) (bool, error) {
 		// RDPTokenOptionalCookieBytesMax constant has to be adjusted accordingly. The IP parsing process
 		// would also need to be redesigned to provide for solutions relevant for both address families.
 		RDPTokenOptionalCookieBytesTotal := l - 2 // exclude CR LF
-		if RDPTokenOptionalCookieBytesTotal < RDPTokenOptionalCookieBytesMin ||
-			RDPTokenOptionalCookieBytesTotal > RDPTokenOptionalCookieBytesMax {
+		if l < RDPTokenOptionalCookieBytesMin || l > RDPTokenOptionalCookieBytesMax { // both include CR LF
 			break
 		}
 
